@@ -48,7 +48,7 @@ Qed.
 
 Section Lift.
   Variable pe : str -> option Conv.evr.
-  Variable ex : str -> str.
+  Variable ex : str -> option str.
   Variable opt : aval.
   Variable mw : list word.
 
